@@ -180,6 +180,10 @@ func init() {
 		// math
 		"math.Ceil":        intrCeil,
 		"math.Floor":        intrFloor,
+		"math.Round":        func(fr *frame, a []value) value { return intrRoundMode(a[0], "RNA", math.Round) },
+		"math.RoundToEven":  func(fr *frame, a []value) value { return intrRoundMode(a[0], "RNE", math.RoundToEven) },
+		"math.Trunc":        func(fr *frame, a []value) value { return intrRoundMode(a[0], "RTZ", math.Trunc) },
+		"math.Abs":          intrAbs,
 		"math.IsNaN":        intrIsNaN,
 		"math.IsInf":        intrIsInf,
 		"math.Float64bits":  func(fr *frame, a []value) value { return math.Float64bits(a[0].(float64)) },
@@ -1142,6 +1146,20 @@ func intrCeil(fr *frame, a []value) value {
 		return math.Ceil(f)
 	}
 	return mkOp("fp.roundToIntegral", sortFP, &Term{lit: "RTP"}, a[0].(*Term))
+}
+
+func intrRoundMode(x value, mode string, conc func(float64) float64) value {
+	if f, ok := x.(float64); ok {
+		return conc(f)
+	}
+	return mkOp("fp.roundToIntegral", sortFP, &Term{lit: mode}, x.(*Term))
+}
+
+func intrAbs(fr *frame, a []value) value {
+	if f, ok := a[0].(float64); ok {
+		return math.Abs(f)
+	}
+	return mkOp("fp.abs", sortFP, a[0].(*Term))
 }
 
 func intrFloor(fr *frame, a []value) value {
